@@ -5,7 +5,7 @@ from props import res_common as R
 RULE = ('exhaustive: every polynomial of degree 1..3 with coefficients in {-2..2} and of degree 4..5 with coefficients in {-1..1}; random degree 1..12 '
         '(every residue of the degree mod 4 in equal shares) with coefficients up to 2^64, negative and non-primitive leading coefficients; '
         'repeated factors (discriminant 0); metamorphic relations on implementation outputs: disc f(x+c) = disc f(-x) = disc f, '
-        'disc(fg) = disc f disc g Res(f,g)^2; zero (assert) and constants (outside the property: model must still agree). '
+        'disc(fg) = disc f disc g Res(f,g)^2; degrees 1..4 with every coefficient at or next to +-2^31, 2^32, 2^63, 2^64, 2^127 in both profiles; zero (assert) and constants (outside the property: model must still agree). '
         'Non-trivial = degree >= 2. The last tag gives the count of model runs whose exactness flag was true/false.')
 PROVED = ['[P] sign_rule: m mod 4 in {2,3} <-> m(m-1)/2 odd',
           '[P] discriminant_zero: the zero polynomial fails the assert (Panic PAssert) in either mode',
@@ -78,6 +78,18 @@ def cases(rng, tier):
     for f in R.small_polys(3, -2, 2): add(f, 'exhaustive-deg<=3' if len(f) > 1 else 'zero-or-constant')
     for f in R.small_polys(5 if th else 4, -1, 1):
         if len(f) >= 5: add(f, 'exhaustive-deg4-5')
+    # machine-word boundaries: every coefficient at or next to +-2^31, +-2^63, +-2^64, +-2^127 (a closed form or a
+    # fast path computed in i64/i128 instead of BigInt wraps in release and panics in dev exactly here), degrees 1..4
+    edge = [s_ * (2 ** e + d) for e in (31, 32, 63, 64, 127) for d in (-1, 0, 1) for s_ in (1, -1)]
+    for n in (1, 2, 2, 2, 3, 4):
+        for _ in range(10 if not th else 60):
+            f = [rng.choice(edge) if rng.random() < 0.8 else rng.randrange(-3, 4) for _ in range(n + 1)]
+            if f[-1] == 0: f[-1] = rng.choice(edge)
+            for prof in ('debug', 'release'): add(f, 'word-boundary-coefficients-deg%d' % n, prof)
+    for e in (63, 64):
+        for prof in ('debug', 'release'):
+            add([2 ** e - 1, 1, 2 ** e - 1], 'word-boundary-coefficients-deg2', prof)
+            add([-(2 ** e), 2 ** e - 1, 2 ** e - 1], 'word-boundary-coefficients-deg2', prof)
     # random, every residue mod 4
     for k in range(160 if not th else 2400):
         n = 1 + k % 12
